@@ -29,6 +29,14 @@ def canonicalise(tree: ast.AST) -> None:
       not not X                ->  X
       not (a == b) / (a in b) / (a is b) and their negative forms -> the single comparison
     Line numbers stay those of the original nodes."""
+    # x in d.keys() -> x in d ; for k in d.keys() -> for k in d ; min([a, b]) -> min(a, b)
+    for node in ast.walk(tree):
+        if isinstance(node, ast.Compare) and len(node.ops) == 1 and isinstance(node.ops[0], (ast.In, ast.NotIn)) and _is_keys_call(node.comparators[0]):
+            node.comparators[0] = node.comparators[0].func.value
+        elif isinstance(node, (ast.For, ast.comprehension)) and _is_keys_call(node.iter):
+            node.iter = node.iter.func.value
+        elif isinstance(node, ast.Call) and isinstance(node.func, ast.Name) and node.func.id in ("min", "max") and len(node.args) == 1 and not node.keywords and isinstance(node.args[0], (ast.List, ast.Tuple)) and len(node.args[0].elts) >= 2 and not any(isinstance(e, ast.Starred) for e in node.args[0].elts):
+            node.args = list(node.args[0].elts)
     for node in ast.walk(tree):
         for fld, val in ast.iter_fields(node):
             if isinstance(val, ast.UnaryOp) and isinstance(val.op, ast.Not):
@@ -49,6 +57,53 @@ def canonicalise(tree: ast.AST) -> None:
             if isinstance(seq, list) and len(seq) > 1 and any(isinstance(x, ast.Pass) for x in seq) and all(isinstance(x, ast.stmt) for x in seq):
                 kept = [x for x in seq if not isinstance(x, ast.Pass)]
                 seq[:] = kept or [seq[0]]
+    # an else after an arm that always leaves (return / raise / continue / break) is hoisted behind the
+    # if-statement; when only the else arm leaves, the test is negated first:
+    #   if T: ..; return   else: REST      ->   if T: ..; return       REST
+    #   if T: BODY   else: ..; raise       ->   if not T: ..; raise    BODY
+    # (elif chains are left alone: they are dispatch tables, not guards)
+    for node in ast.walk(tree):
+        for fld in ("body", "orelse", "finalbody"):
+            seq = getattr(node, fld, None)
+            if not (isinstance(seq, list) and seq and isinstance(seq[0], ast.stmt)):
+                continue
+            i = 0
+            while i < len(seq):
+                st = seq[i]
+                if isinstance(st, ast.If) and st.orelse and not (len(st.orelse) == 1 and isinstance(st.orelse[0], ast.If)) and not _is_elif_arm(node, fld, st):
+                    if always_leaves(st.body):
+                        rest = st.orelse
+                        st.orelse = []
+                        seq[i + 1:i + 1] = rest
+                    elif always_leaves(st.orelse):
+                        rest = st.body
+                        st.test = _simplify_not(ast.copy_location(ast.UnaryOp(op=ast.Not(), operand=st.test), st.test))
+                        st.body, st.orelse = st.orelse, []
+                        seq[i + 1:i + 1] = rest
+                i += 1
+    # while True: if not W: return X / break; REST   ->   while W: REST  [; return X]
+    # (only when REST has no `break` of this loop - it would skip the return - and the loop has no else)
+    for node in ast.walk(tree):
+        for fld in ("body", "orelse", "finalbody"):
+            seq = getattr(node, fld, None)
+            if not (isinstance(seq, list) and seq and isinstance(seq[0], ast.stmt)):
+                continue
+            for i, st in enumerate(list(seq)):
+                if not (isinstance(st, ast.While) and isinstance(st.test, ast.Constant) and st.test.value is True and not st.orelse and len(st.body) >= 2):
+                    continue
+                g = st.body[0]
+                if not (isinstance(g, ast.If) and not g.orelse and len(g.body) == 1 and isinstance(g.body[0], (ast.Return, ast.Break))):
+                    continue
+                neg = _simplify_not(ast.copy_location(ast.UnaryOp(op=ast.Not(), operand=g.test), g.test))
+                if not isinstance(neg, (ast.Name, ast.Attribute, ast.Compare)):
+                    continue
+                if isinstance(g.body[0], ast.Return) and _has_own_break(st.body[1:]):
+                    continue
+                st.test = neg
+                st.body = st.body[1:]
+                if isinstance(g.body[0], ast.Return):
+                    j = seq.index(st)
+                    seq.insert(j + 1, g.body[0])
     for node in ast.walk(tree):
         if isinstance(node, (ast.For, ast.While)):
             body = node.body
@@ -75,6 +130,46 @@ def canonicalise(tree: ast.AST) -> None:
                 node.body, node.orelse = node.orelse, node.body
 
 
+def _is_keys_call(e: ast.AST) -> bool:
+    return isinstance(e, ast.Call) and isinstance(e.func, ast.Attribute) and e.func.attr == "keys" and not e.args and not e.keywords
+
+
+def always_leaves(stmts) -> bool:
+    """the statement list cannot fall through: it ends in return / raise / continue / break, or in an
+    if-statement both of whose arms do"""
+    if not stmts:
+        return False
+    last = stmts[-1]
+    if isinstance(last, (ast.Return, ast.Raise, ast.Continue, ast.Break)):
+        return True
+    if isinstance(last, ast.If) and last.orelse:
+        return always_leaves(last.body) and always_leaves(last.orelse)
+    return False
+
+
+def _has_own_break(stmts) -> bool:
+    """a `break` that belongs to the loop whose body is `stmts` (not to a nested loop)"""
+    for s_ in stmts:
+        if isinstance(s_, ast.Break):
+            return True
+        if isinstance(s_, (ast.For, ast.While, ast.AsyncFor, ast.FunctionDef, ast.AsyncFunctionDef, ast.ClassDef)):
+            if _has_own_break(getattr(s_, "orelse", [])):
+                return True
+            continue
+        for fld in ("body", "orelse", "finalbody"):
+            sub = getattr(s_, fld, None)
+            if isinstance(sub, list) and _has_own_break(sub):
+                return True
+        for h in getattr(s_, "handlers", []) or []:
+            if _has_own_break(h.body):
+                return True
+    return False
+
+
+def _is_elif_arm(parent: ast.AST, fld: str, st: ast.AST) -> bool:
+    return isinstance(parent, ast.If) and fld == "orelse" and len(parent.orelse) == 1 and parent.orelse[0] is st
+
+
 def _simplify_not(e: ast.UnaryOp) -> ast.AST:
     inner, neg = _strip_not(e)
     if isinstance(inner, ast.Compare) and len(inner.ops) == 1 and neg:
@@ -88,6 +183,17 @@ def _simplify_not(e: ast.UnaryOp) -> ast.AST:
     if inner is e.operand:
         return e
     return ast.copy_location(ast.UnaryOp(op=ast.Not(), operand=inner), e)
+
+
+def cond_key(test_text: str, polarity: bool) -> str:
+    """alpha-normalised text of a guard condition with its polarity folded in: the negation of a single
+    comparison is the opposite comparison (`not a in b` and `a not in b` give one key)"""
+    e = ast.parse(test_text, mode="eval").body
+    if not polarity:
+        e = _simplify_not(ast.UnaryOp(op=ast.Not(), operand=e))
+    elif isinstance(e, ast.UnaryOp) and isinstance(e.op, ast.Not):
+        e = _simplify_not(e)
+    return alpha_key(ast.fix_missing_locations(ast.Expression(body=e)).body)
 
 
 def set_parents(tree: ast.AST) -> None:
